@@ -70,6 +70,9 @@ def macro_body(i, callees, variant, seed, nparams=2):
         body.append(A.If([A.IfBranch(False, [A.Cond("op", ("c", f"$LOOPVAR{i}"), "<", "int", ("i", 3))], [A.Jump("priv")])]))
     else:
         body.append(A.While(False, A.Cond("bit", False, ("c", f"$FLAGS{i}"), 1), [A.Ctrl("break_loop")]))
+    if variant % 4 == 3:
+        # the body ends with a conditional jump to its own end (a Return has to be appended when a routine ends there)
+        body.append(A.While(True, A.Cond("special", False, "variation"), [A.Op(f"m{i}_w", [q])]))
     return body
 
 
@@ -102,7 +105,9 @@ def main_routine(m, edges, seed, variant=0):
     # and the last macro twice more in a row (parameterless for some variants)
     body.append(A.MacroCall(f"m{m - 1}", [("i", 7), ("i", 8)][:nps[m - 1]]))
     body.append(A.MacroCall(f"m{m - 1}", [("i", 9), ("c", "LAST")][:nps[m - 1]]))
-    body.append(A.Op("end_op", []))
+    if variant % 4 != 1:
+        # (otherwise the routine ends with the expansion: the compiler appends the Return behind ops of a macro)
+        body.append(A.Op("end_op", []))
     return A.Routine("def", 0, body)
 
 
@@ -159,6 +164,11 @@ def build_files(spec, seed):
     in_lib2 = [macros[i] for i in order if i in lib2]
     files = {}
     imports_main = []
+    if spec["variant"] % 3 == 0:
+        # macros with a position mark that are never called: their marks are not part of the result
+        in_main = in_main + [A.Macro("unused_pm", [], [A.Op("never", [("p", "unused main", 0, 2, 9, 9)])])]
+        if in_lib:
+            in_lib = [A.Macro("unused_pm_lib", ["$u"], [A.Op("never_lib", [("p", "unused lib", 2, 0, 8, 8), ("c", "$u")])])] + in_lib
     sub = "sub/" if spec.get("subdir") else ""
     if in_lib2:
         files[sub + "deep/lib2.exps"] = A.Program([], in_lib2)
